@@ -1,3 +1,3 @@
-import Hannibal.Props.C03
+import Hannibal.Props.C03Current
 #print axioms Hannibal.C03_holds
 #print axioms Hannibal.C03_current
